@@ -5,7 +5,7 @@
 From Coq Require Import List ZArith Bool.
 From SVC Require Import Base.AMap Base.Res Base.Dec Model.Types Model.Pricing
   Model.Handlers Model.EndBlock Model.Step Proofs.Inv Proofs.BankLemmas Proofs.StepSpecs_deposit
-  Proofs.TraceLemmas Proofs.TraceSettle Proofs.DecProofs Proofs.GapC02 Proofs.GapC02b Proofs.GapC03 Proofs.GapC04 Proofs.GapC02c.
+  Proofs.TraceLemmas Proofs.TraceSettle Proofs.DecProofs Proofs.GapC02 Proofs.GapC02b Proofs.GapC03 Proofs.GapC04 Proofs.GapC02c Proofs.GapC04b.
 Import ListNotations.
 Open Scope Z_scope.
 
@@ -275,3 +275,11 @@ Theorem C04_endblock_request_events : forall cfg s dt,
                             \/ exists amt, e = EvSlash r (c_svc rc, r_prov q) amt)))).
 Proof. exact GapC02c.endblock_request_events. Qed.
 Print Assumptions C04_endblock_request_events.
+
+(* trace level: in every reachable state the binding named by a slash event belongs to the
+   provider the request was issued to (the `exists k` of the closed traces is pinned down) *)
+Theorem C04_slash_names_issued_provider : forall cfg s r k amt p c f,
+  wf_cfg cfg -> Reach cfg s ->
+  In (EvSlash r k amt) (log s) -> In (EvIssue r p c f) (log s) -> snd k = p.
+Proof. exact GapC04b.slash_names_issued_provider. Qed.
+Print Assumptions C04_slash_names_issued_provider.
